@@ -52,6 +52,10 @@ class C16(framework.PropertyCheck):
             # a user macro that looks at its operands as they were written (library macro call, foldable arithmetic)
             extra += ["(define xs9 '(1 2 3))", "(defmacro q9 [e] `',e)", '(print (q9 (sum xs9)) (q9 (+ 1 2)))',
                       "(defmacro len9 [e] (length e))", '(print (len9 (when 1 2 3)))']
+        elif r.random() < 0.3:
+            # the same with the macro defined in a nested position (include guard, do block)
+            extra += [r.choice(["(unless (defined? 'show9) (defmacro show9 [e] `(list ',e ,e)))", "(do (define g9 1) (defmacro show9 [e] `(list ',e ,e)))",
+                                "(when #t (defmacro show9 [e] `(list ',e ,e)))"]), '(print (show9 (+ 1 2)) (show9 (if 1 2 3)))']
         if with_trace:
             extra += [r.choice(['(step 2)', '(step)', '(step 1)']), '(print INDEX " " t0^top.cnt)',
                       r.choice(['(print (find (= t0^top.clk 1)))', '(whenever (= t0^top.clk 1) (print "w" INDEX))', '(print t0^top.cnt@1)',
@@ -69,7 +73,8 @@ class C16(framework.PropertyCheck):
                 forms.insert(0, '(defun boom8 [a] (first a))')
                 f = '(boom8 5)'
             forms.append(f)
-            forms.append('(print "after")')
+            if r.random() < 0.6:
+                forms.append('(print "after")')       # otherwise the failing form is the last line of the file
         return forms
 
     def cases(self, rng, tier, n):
